@@ -129,9 +129,11 @@ TEXTS = {
   "level": "PARTIAL. Lean theorems over the search model, for every cache content satisfying the invariant, every limit and interruption: the search keeps the cache mate-sound and a winning mate score at the "
            "root is backed by a forced mate after the chosen move -- PROVIDED no root move mates at once and the initial cache holds no score <= -32767 / >= 32767; both provisos are necessary: the full "
            "statements are refuted by two counter-example games (root beta = MAX coincides with the mate-in-one score, windows below become empty and a fail-hard return is stored as a 'forced mate' lower bound). "
-           "The property's own clauses (mate in one played, forced mate kept, avoidable mate in one avoided, with fresh and pre-loaded caches) are decided by a differential run against a mate solver over the "
-           "rules spec on mined positions; the search model is tied to the code trace-exactly on the same cases.",
-  "note": "The completeness clauses are not theorems (stored mate distances are root-relative). Trusted: Lean kernel, search model (trace-exact), rules spec + mate solver, harness/driver, KeyMate hypothesis. "
+           "Completeness: clause 1 (a mate in one is played after any completed iteration, from the empty cache and after earlier completed searches of the position) is a theorem, its extra key / draw / cache-on "
+           "hypotheses each shown necessary by a counter-example; clause 2 (mate in two kept) is a theorem for a quiet key move at 3 plies and for any key move at 4 plies, clause 3 (avoidable mate in one avoided) for depth >= 2, both under "
+           "hypotheses excluding transpositions between plies (mate scores are stored ply-relative, unadjusted) and early draws, and both are REFUTED as stated for the abstract search by kernel-checked counter-example games. "
+           "On chess positions all three clauses (fresh and pre-loaded caches) are decided by a differential run against a mate solver over the rules spec on mined positions; the search model is tied to the code trace-exactly on the same cases.",
+  "note": "Clauses 2 and 3 are not theorems as stated (findings D10, D11 in DESIGN.md; no chess position exhibiting them was found). Trusted: Lean kernel, search model (trace-exact), rules spec + mate solver, harness/driver, KeyMate hypothesis. "
           "statements_refuted takes the two displayed #eval results as hypotheses because Std.HashMap does not reduce in the kernel (they are pinned by #guard_msgs in Proofs/SearchMate.lean).",
   "technique": "Lean 4 proof (cache invariant through PVS, probe, three store sites, aborts, draw cuts) with kernel-checked refutation of the unrestricted statement + oracle-based differential correspondence",
  },
